@@ -5,7 +5,7 @@ from .skeletons import UN3
 LEVEL = 'model_checking'
 BUDGET_S = {'quick': 220, 'thorough': 1200}
 BOUNDS = {
-    'quick': 'universe U7 + c (cache at c/cache, so the build may create the cache directory); clean after commits, after '
+    'quick': 'universe U7 + c (cache at c/cache, or two levels deep at c/s/cache, so the build may create the cache directories); clean after commits, after '
              'rollbacks, after external tampering (files put into created directories, outputs deleted/modified, swaps), '
              'after a previous clean and without a cache; then a build that must run everything',
     'thorough': 'wider holes, skeleton set B, 5-step histories',
@@ -26,6 +26,10 @@ def families(tier):
         {'name': 'A4', 'params': dict(base, hist='BMC', kinds=['is_dir'], roles=['o'], targets=['o/d/g'],
                                       modes=['ok', 'raise_after'], mut_paths=mp), 'weight': 2},
     ]
+    # the cache file two created levels deep (c/s/cache), outputs elsewhere or next to it
+    deep = {'cache': 'c/s/cache', 'universe': ['c', 'c/s', 'o', 'o/d', 'o/d/g', 'in', 'in/x']}
+    q.append({'name': 'A3', 'params': dict(deep, hist='BC', kinds=['is_file'], roles=['in/x'], targets=['o/d/g', 'c/t', 'c/s/t'], modes=['ok']), 'weight': 1})
+    q.append({'name': 'A3', 'params': dict(deep, hist='BBC', kinds=['is_file'], roles=['in/x'], targets=['o/d/g', 'c/t'], modes=['ok']), 'weight': 1})
     q.append({'name': 'P2', 'params': dict(base, hist='BBC', universe=['c', 'o', 'o/d', 'o/dx']), 'weight': 1})
     q.append({'name': 'CD', 'params': dict(base, hist='BBC', universe=['c', 'c/x', 'c/sub']), 'weight': 1})
     q.append({'name': 'CD', 'params': dict(base, hist='BMBC', universe=['c', 'c/x', 'c/sub'], mut_paths=['c/x', 'c/sub', 'c/z']), 'weight': 1})
